@@ -49,13 +49,16 @@ func (t *tableSpec) allColumns() []colSpec {
 
 var rdSRS = gpkg.SpatialReferenceSystem{Name: "Amersfoort / RD New", ID: 28992, Organization: "EPSG", OrganizationCoordsysID: 28992, Definition: "PROJCS[\"Amersfoort / RD New\"]", Description: "rd"}
 
+// customSRS: a reference system whose srs_id is not its organisation's id for it (as Esri tools write them)
+var customSRS = gpkg.SpatialReferenceSystem{Name: "RD New (custom id)", ID: 100001, Organization: "EPSG", OrganizationCoordsysID: 28992, Definition: "PROJCS[\"Amersfoort / RD New\"]", Description: "rd under another id"}
+
 func writeSource(path string, tables []*tableSpec) error {
 	h, err := gpkg.Open(path)
 	if err != nil {
 		return err
 	}
 	defer h.Close()
-	if err := h.UpdateSRS(rdSRS); err != nil {
+	if err := h.UpdateSRS(rdSRS, customSRS); err != nil {
 		return err
 	}
 	for _, t := range tables {
@@ -126,6 +129,7 @@ type tableBack struct {
 	extent   string
 	geomCol  string // table_name column_name geometry_type_name srs_id
 	srsID    int    // srs_id of gpkg_geometry_columns (-1: no row)
+	srsRow   string // the gpkg_spatial_ref_sys row of that srs_id: name | organization | organization_coordsys_id
 	contents string // data_type srs_id
 }
 
@@ -231,6 +235,13 @@ func readBack(path, table, gcol string) (*tableBack, error) {
 		tb.srsID = -1
 	} else {
 		tb.srsID = gsrs
+		var sn, so string
+		var soid int
+		if err := db.QueryRow(`SELECT srs_name, organization, organization_coordsys_id FROM gpkg_spatial_ref_sys WHERE srs_id = ?`, gsrs).Scan(&sn, &so, &soid); err != nil {
+			tb.srsRow = "no gpkg_spatial_ref_sys row for srs_id " + fmt.Sprint(gsrs)
+		} else {
+			tb.srsRow = fmt.Sprintf("%s | %s | %d", sn, so, soid)
+		}
 		tb.geomCol = fmt.Sprintf("%s %s %s %d", tn, cn, strings.ToUpper(gt), gsrs)
 	}
 	return tb, nil
@@ -258,7 +269,8 @@ func bboxOf(gs []geom.Geometry) string {
 // ---- random tables
 
 func randGeom(rng *rand.Rand, gt gpkg.GeometryType, i int, emptyShare int) geom.Geometry {
-	x, y := float64(rng.Intn(2000))/4-100, float64(rng.Intn(2000))/4+300
+	// ordinates that are not float32 numbers (an rtree stores float32, rounded outwards)
+	x, y := float64(rng.Intn(2000))/4-100+0.1234567, float64(rng.Intn(2000))/4+300+0.7654321
 	if gt == gpkg.Geometry { // a table of mixed geometries
 		gt = []gpkg.GeometryType{gpkg.Point, gpkg.Linestring, gpkg.Polygon, gpkg.MultiPolygon, gpkg.MultiPoint, gpkg.MultiLinestring}[rng.Intn(6)]
 	}
@@ -298,7 +310,7 @@ func randGeom(rng *rand.Rand, gt gpkg.GeometryType, i int, emptyShare int) geom.
 }
 
 func randTable(rng *rand.Rand, name string, gt gpkg.GeometryType, n int, emptyShare int) *tableSpec {
-	t := &tableSpec{name: name, gcol: []string{"geom", "geometry", "shape"}[rng.Intn(3)], gtype: gt, srs: []int32{28992, 4326, 3857}[rng.Intn(3)], intPK: true}
+	t := &tableSpec{name: name, gcol: []string{"geom", "geometry", "shape"}[rng.Intn(3)], gtype: gt, srs: []int32{28992, 4326, 3857, 100001}[rng.Intn(4)], intPK: true}
 	if t.intPK {
 		t.cols = append(t.cols, colSpec{"fid", "INTEGER"})
 	} else {
@@ -410,6 +422,9 @@ func compareTable(t *tableSpec, want []rowBack, wantGeoms []geom.Geometry, got *
 		}
 		if got.contents != srcBack.contents {
 			return fmt.Sprintf("gpkg_contents %q, source %q", got.contents, srcBack.contents)
+		}
+		if got.srsRow != srcBack.srsRow {
+			return fmt.Sprintf("spatial reference system %q, source %q", got.srsRow, srcBack.srsRow)
 		}
 	}
 	return ""
